@@ -26,6 +26,19 @@ fn disk_copies(cfg: &HCfg, dir: &std::path::Path) -> BTreeMap<Stamp, usize> {
     m
 }
 
+/// sequences under which each version is present on the device (a rewrite shows up as a new sequence even if the old
+/// copy was reclaimed in the same step)
+fn disk_sequences(cfg: &HCfg, dir: &std::path::Path) -> BTreeMap<Stamp, std::collections::BTreeSet<u64>> {
+    let img = image::parse_image(cfg, dir);
+    let mut m: BTreeMap<Stamp, std::collections::BTreeSet<u64>> = BTreeMap::new();
+    for e in img.entries {
+        if let Payload::Value { stamp, .. } = e.payload {
+            m.entry(stamp).or_default().insert(e.sequence);
+        }
+    }
+    m
+}
+
 #[derive(Clone, Debug)]
 struct Ver {
     stamp: Stamp,
@@ -51,7 +64,11 @@ async fn run_script(cfg: &HCfg, script: &[HOp], locs: &BTreeMap<u64, Loc>) -> Re
     let mut before = disk_copies(cfg, &ex.dir.0);
     let mut total_new = 0usize;
     let woi = cfg.policy == Policy::WriteOnInsertion;
-    let admitted = |k: u64| !(cfg.admit_reject_mod != 0 && (k / cfg.hash_div.max(1)) % cfg.admit_reject_mod == 1);
+    // rejected or throttled by the admission filter = not admitted
+    let admitted = |k: u64| {
+        let h = k / cfg.hash_div.max(1);
+        !(cfg.admit_reject_mod != 0 && h % cfg.admit_reject_mod == 1) && !(cfg.admit_throttle_mod != 0 && h % cfg.admit_throttle_mod == 2)
+    };
     for (i, op) in script.iter().enumerate() {
         let o = ex.step(op).await;
         if !matches!(op, HOp::Wait | HOp::CloseReopen) {
@@ -75,7 +92,8 @@ async fn run_script(cfg: &HCfg, script: &[HOp], locs: &BTreeMap<u64, Loc>) -> Re
             HOp::Insert { k, loc, .. } => {
                 let Some(Seen::Hit(s)) = o.seen else { continue };
                 let adm = admitted(*k);
-                class = format!("insert:{loc:?}:{}:{}", if woi { "woi" } else { "woe" }, if adm { "admit" } else { "reject" });
+                let thr = cfg.admit_throttle_mod != 0 && (*k / cfg.hash_div.max(1)) % cfg.admit_throttle_mod == 2;
+                class = format!("insert:{loc:?}:{}:{}", if woi { "woi" } else { "woe" }, if adm { "admit" } else if thr { "throttled" } else { "reject" });
                 let mut to_disk = false;
                 match loc {
                     Loc::InMem => {}
@@ -167,6 +185,105 @@ async fn run_script(cfg: &HCfg, script: &[HOp], locs: &BTreeMap<u64, Loc>) -> Re
     Ok(Outcome { problems, steps, copies_written: total_new, classes })
 }
 
+/// Probation family: a device of 24 small blocks is filled until blocks are reclaimed, so that the FIFO picker has
+/// blocks "marked for imminent reclaim" (probation).  Disk hits on such blocks and on ordinary blocks: a hit itself
+/// writes nothing and does not run the origin; under write-on-eviction a later eviction rewrites the entry exactly
+/// when its block was on probation at load time, under write-on-insertion never.
+async fn run_probation(rng: &mut Rng, policy: Policy) -> Result<Outcome, String> {
+    let mut cfg = HCfg::small(AlgoCfg::default_for(Algo::Fifo));
+    cfg.policy = policy;
+    cfg.flush_on_close = false;
+    cfg.mem_capacity = 1 << 20;
+    cfg.block_size = 16 * 1024;
+    cfg.blocks = 24 + rng.usize(8);
+    cfg.flushers = 1;
+    cfg.clean_block_threshold = 1;
+    let woi = policy == Policy::WriteOnInsertion;
+    let per_block = cfg.block_size / crate::hyb::PAGE - 1;
+    let n = cfg.blocks * per_block + 6 + rng.usize(4 * per_block);
+    let mut ex = Exec::new(cfg.clone()).await.map_err(|e| format!("open: {e}"))?;
+    let mut problems = vec![];
+    let mut classes: BTreeMap<String, u64> = BTreeMap::new();
+    for i in 0..n as u64 {
+        ex.step(&HOp::Insert { k: i, size: 500 + (i as usize % 7) * 300, loc: Loc::Default }).await;
+        if i % 6 == 5 {
+            if !woi {
+                ex.step(&HOp::EvictMem).await;
+            }
+            ex.step(&HOp::Wait).await;
+        }
+    }
+    ex.step(&HOp::EvictMem).await;
+    ex.step(&HOp::Wait).await;
+    // classify what the disk tier would hand out for every key
+    let mut old = vec![];
+    let mut young = vec![];
+    for k in 0..n as u64 {
+        if let Ok(foyer::Load::Entry { populated, .. }) = ex.cache().storage().load(&k).await {
+            match populated.age {
+                foyer::Age::Old => old.push(k),
+                foyer::Age::Young => young.push(k),
+                _ => {}
+            }
+        }
+    }
+    *classes.entry(format!("probation_keys_seen:{}", if woi { "woi" } else { "woe" })).or_insert(0) += old.len() as u64;
+    let mut total_new = 0usize;
+    let picks: Vec<(u64, bool)> = old.iter().take(4).map(|k| (*k, true)).chain(young.iter().rev().take(3).map(|k| (*k, false))).collect();
+    let mut seen_seqs = disk_sequences(&cfg, &ex.dir.0);
+    for (k, was_old) in picks {
+        let op = if rng.chance(1, 2) { HOp::GetOrFetch { k, size: 100 } } else { HOp::Get { k } };
+        let o = ex.step(&op).await;
+        ex.step(&HOp::Wait).await;
+        let after = disk_sequences(&cfg, &ex.dir.0);
+        let class = format!("hit-on-{}-block:{}", if was_old { "probation" } else { "ordinary" }, if woi { "woi" } else { "woe" });
+        *classes.entry(class.clone()).or_insert(0) += 1;
+        let Some(Seen::Hit(s)) = o.seen else {
+            // reclaimed meanwhile: nothing to judge
+            continue;
+        };
+        if o.source.as_deref() != Some("Disk") {
+            continue;
+        }
+        if o.origin_ran {
+            problems.push(("origin-ran-on-hit".into(), format!("{op:?}: served from disk but the origin future was polled")));
+        }
+        // any copy under a sequence never seen before was written by this step
+        let fresh = |now: &BTreeMap<Stamp, std::collections::BTreeSet<u64>>, seen: &BTreeMap<Stamp, std::collections::BTreeSet<u64>>| -> Vec<(Stamp, u64)> {
+            now.iter().flat_map(|(st, qs)| qs.iter().filter(|q| !seen.get(st).map(|x| x.contains(q)).unwrap_or(false)).map(|q| (*st, *q)).collect::<Vec<_>>()).collect()
+        };
+        let grew = fresh(&after, &seen_seqs);
+        for (st, q) in &grew {
+            seen_seqs.entry(*st).or_default().insert(*q);
+        }
+        if !grew.is_empty() {
+            problems.push((format!("unexpected-disk-write:{class}"), format!("{op:?} was a disk hit (block on probation at load time: {was_old}) but entry copies {grew:?} (version, sequence) newly appeared on the device")));
+            break;
+        }
+        // the loaded entry leaves memory again
+        ex.step(&HOp::EvictMem).await;
+        ex.step(&HOp::Wait).await;
+        let after2 = disk_sequences(&cfg, &ex.dir.0);
+        let grew2 = fresh(&after2, &seen_seqs);
+        for (st, q) in &grew2 {
+            seen_seqs.entry(*st).or_default().insert(*q);
+        }
+        let rewritten = grew2.iter().any(|(st, _)| *st == s);
+        let expect_rewrite = !woi && was_old;
+        total_new += grew2.len();
+        if rewritten && !expect_rewrite {
+            problems.push((format!("unexpected-disk-write:evict-after-{class}"), format!("key {k}: evicting the entry loaded from an {} block wrote it again ({grew2:?})", if was_old { "on-probation" } else { "ordinary" })));
+            break;
+        }
+        if !rewritten && expect_rewrite {
+            problems.push((format!("missing-disk-write:evict-after-{class}"), format!("key {k}: the entry was loaded from a block marked for imminent reclaim, write-on-eviction must rewrite it when it leaves memory, but no copy under a new sequence appeared")));
+            break;
+        }
+    }
+    ex.finish().await;
+    Ok(Outcome { problems, steps: n, copies_written: total_new + old.len(), classes })
+}
+
 fn gen_case(rng: &mut Rng, i: usize) -> (HCfg, Vec<HOp>, BTreeMap<u64, Loc>) {
     let mut cfg = HCfg::small(AlgoCfg::default_for(ALGOS[i % 5]));
     cfg.policy = if rng.chance(1, 2) { Policy::WriteOnEviction } else { Policy::WriteOnInsertion };
@@ -175,6 +292,7 @@ fn gen_case(rng: &mut Rng, i: usize) -> (HCfg, Vec<HOp>, BTreeMap<u64, Loc>) {
     cfg.block_size = 64 * 1024;
     cfg.blocks = 8; // < 10 blocks: no block can be in probation
     cfg.admit_reject_mod = if rng.chance(1, 3) { 3 } else { 0 };
+    cfg.admit_throttle_mod = if rng.chance(1, 3) { 4 } else { 0 };
     cfg.tombstone = rng.chance(1, 2);
     let keys: Vec<u64> = (0..5).collect();
     let mut locs = BTreeMap::new();
@@ -211,6 +329,31 @@ pub fn run(seed: u64, tier: &str, shard: usize, nshards: usize) -> ShardResult {
     let rt = tokio::runtime::Builder::new_multi_thread().worker_threads(3).enable_all().build().unwrap();
     let total = if tier == "thorough" { 32_000 } else { 4_000 };
     let mut rng = Rng::derive(seed, 0xC12_000 + shard as u64);
+    // probation family (long): a few per shard
+    for j in 0..if tier == "thorough" { 12 } else { 2 } {
+        let policy = if j % 2 == 0 { Policy::WriteOnInsertion } else { Policy::WriteOnEviction };
+        let r = rt.block_on(async { tokio::time::timeout(std::time::Duration::from_secs(300), run_probation(&mut rng, policy)).await });
+        res.evaluations += 1;
+        match r {
+            Err(_) => {
+                res.inconclusive += 1;
+                res.inconclusive_notes.push("probation plan did not finish within 300s".into());
+            }
+            Ok(Err(e)) => {
+                res.inconclusive += 1;
+                res.inconclusive_notes.push(e);
+            }
+            Ok(Ok(o)) => {
+                res.count("probation_plans", 1);
+                for (k, v) in &o.classes {
+                    res.count(&format!("class_{k}"), *v);
+                }
+                for (sig, detail) in o.problems.iter().take(1) {
+                    res.violate(format!("C12:{sig}"), detail.clone(), json!({"check":"c12","family":"probation","policy":format!("{policy:?}")}));
+                }
+            }
+        }
+    }
     for i in 0..total / nshards.max(1) {
         let (cfg, script, locs) = gen_case(&mut rng, i);
         let r = rt.block_on(async { tokio::time::timeout(std::time::Duration::from_secs(300), run_script(&cfg, &script, &locs)).await });
